@@ -156,3 +156,18 @@ Proof.
   apply in_map_iff in Hv. destruct Hv as [i [<- Hi]]. rewrite Forall_forall in H. apply H, nth_In.
   rewrite Hx. apply bitrev_nat_lt.
 Qed.
+
+Lemma bitrev_nat_0 l : bitrev_nat l 0 = 0.
+Proof. induction l; [reflexivity|]. rewrite bitrev_nat_S. cbn [Nat.modulo Nat.div Nat.divmod fst snd]. rewrite IHl. lia. Qed.
+
+(* reversing a + b bits: the two parts swap places and are reversed separately *)
+Lemma bitrev_nat_split a b : forall hi lo, hi < 2 ^ a -> lo < 2 ^ b ->
+  bitrev_nat (a + b) (hi * 2 ^ b + lo) = bitrev_nat b lo * 2 ^ a + bitrev_nat a hi.
+Proof.
+  induction b; intros hi lo Hhi Hlo.
+  - cbn in Hlo. assert (lo = 0) by lia. subst. rewrite Nat.add_0_r, Nat.pow_0_r, Nat.mul_1_r, Nat.add_0_r. reflexivity.
+  - rewrite Nat.add_succ_r, bitrev_nat_S. rewrite Nat.pow_succ_r' in Hlo.
+    replace ((hi * 2 ^ S b + lo) mod 2) with (lo mod 2) by (rewrite Nat.pow_succ_r'; lia).
+    replace ((hi * 2 ^ S b + lo) / 2) with (hi * 2 ^ b + lo / 2) by (rewrite Nat.pow_succ_r'; lia).
+    rewrite IHb by (try assumption; lia). rewrite (bitrev_nat_S b lo), Nat.pow_add_r. ring.
+Qed.
